@@ -194,11 +194,12 @@ class Run:
             "wall_s": round(wall, 3),
             "violations": n_viol,
         }
-        evdir = os.path.join(VERIF, "evidence")
-        os.makedirs(evdir, exist_ok=True)
-        with open(os.path.join(evdir, f"{self.prop}.json"), "w") as f:
-            json.dump(ev, f, indent=1, sort_keys=True, default=str)
-            f.write("\n")
+        if not os.environ.get("UXSA_NO_EVIDENCE"):  # set only by the seeded-change harness (scratch trees)
+            evdir = os.path.join(VERIF, "evidence")
+            os.makedirs(evdir, exist_ok=True)
+            with open(os.path.join(evdir, f"{self.prop}.json"), "w") as f:
+                json.dump(ev, f, indent=1, sort_keys=True, default=str)
+                f.write("\n")
         out(
             f"[{self.prop}/{self.tier}] obligations={obligations} discharged={discharged} "
             f"known-findings={n_known} violations={n_viol} incomplete={n_incomplete} wall={wall:.2f}s"
